@@ -67,7 +67,18 @@ def run_impl(case, defer=False):
     import jsonpath
 
     k = case["k"]
-    q = jsonpath.query("$[*]", list(range(k)))
+    # the source of the query object and the way child queries are read vary with the case (deterministically)
+    h = (k * 31 + len(case["ops"]) * 7 + sum(len(str(o)) for o in case["ops"])) % 4
+    q = jsonpath.query("$[*]", list(range(k))) if h % 2 == 0 else jsonpath.compile("$[*]").query(list(range(k)))
+
+    def read(child):
+        if h == 0:
+            return list(child.values())
+        if h == 1:
+            return [int(p[2:-1]) for p in child.locations()]
+        if h == 2:
+            return [o for _, o in child.items()]
+        return [m.obj for m in child]          # direct iteration
     outs = []
     pending = []
     for op in case["ops"]:
@@ -84,18 +95,18 @@ def run_impl(case, defer=False):
                     outs.append(slot)
                     pending.append((slot, "taken", t))
                 else:
-                    outs.append({"taken": list(t.values())})
+                    outs.append({"taken": read(t)})
             elif name == "tee":
-                ch = q.tee(op[1])
+                ch = q.tee() if (op[1] == 2 and h >= 2) else q.tee(op[1])
                 if defer:
                     slot = {"children": None}
                     outs.append(slot)
                     pending.append((slot, "children", ch[1:]))
                 else:
-                    outs.append({"children": [list(c.values()) for c in ch[1:]]})
+                    outs.append({"children": [read(c) for c in ch[1:]]})
                 if not ch:
                     for slot, key, obj in pending:
-                        slot[key] = list(obj.values()) if key == "taken" else [list(c.values()) for c in obj]
+                        slot[key] = read(obj) if key == "taken" else [read(c) for c in obj]
                     return {"outs": outs, "final": []}
                 q = ch[0]
             else:
@@ -106,7 +117,9 @@ def run_impl(case, defer=False):
         except Exception as e:  # noqa: BLE001
             return {"err": core.exc_name(e)}
     v = case["view"]
-    if v == "values":
+    if h == 3 and v == "values":
+        fin = [m.obj for m in q]
+    elif v == "values":
         fin = list(q.values())
     elif v == "locations":
         fin = [int(p[2:-1]) for p in q.locations()]
@@ -119,7 +132,7 @@ def run_impl(case, defer=False):
     else:
         fin = [int(str(p)[1:]) for p in q.pointers()]
     for slot, key, obj in pending:
-        slot[key] = list(obj.values()) if key == "taken" else [list(c.values()) for c in obj]
+        slot[key] = read(obj) if key == "taken" else [read(c) for c in obj]
     return {"outs": outs, "final": fin}
 
 
